@@ -27,6 +27,12 @@
                               narrowing cast to i8/i16/i32 (the specification's
                               own example `i8(i64_val)`); i64 -> u8/u16 is not
                               generated (narrowing or saturation first?).
+              64-bit values are records [hi, lo] of two 32-bit halves (value =
+              hi * 2^32 + lo mod 2^32), which TLC can hold.  The only things
+              defined on them are truthiness ("0 is false, non-zero is true",
+              applied by spec.md itself to default-typed integer literals:
+              `2 and 3`, `5 or 0`), unary minus, same-signedness narrowing
+              casts (low bits) and storing them in locals.
    expressions  typed literal T(n) (0 <= n <= max T), parameter, local,
               unary - (signed types), not, + - * / %, == != < > <= >=,
               and / or, casts T(e), parentheses.
@@ -70,8 +76,10 @@
    * chained comparisons `a < b < c`, `a == b == c` and mixed `and`/`or`
      without parentheses (same precedence level, associativity not stated):
      never generated - Show always parenthesises them;
-   * unary minus on unsigned types, `not`/`and`/`or`/`if` on non-u8 operands:
-     never generated;
+   * unary minus on unsigned types, `not` and and/or on non-u8 typed operands: never
+     generated (the analyzer rejects them).  `if` / `else if` on an i64/u64 value and
+     and/or on bare integer literals (default type i64, spec.md's own `2 and 3`)
+     ARE generated: truthiness is "non-zero" on the full 64-bit value;
    * calling convention: the harness passes a narrow argument as the 32-bit
      sign extension (signed types) / zero extension (unsigned types) of its
      value and reads the low `Bits(ret)` bits of the result.
@@ -213,22 +221,35 @@ LogOps   == {"and", "or"}
  Program: [ret |-> T, ps |-> <<[n, t], ...>>, body |-> <<stmt, ...>>]
  ***************************************************************************)
 
+\* 64-bit values: records [hi, lo].  A node of a Wide type holds such a record unless it is a
+\* cast (a cast TO i64/u64 is applied to a narrow value and yields that integer).
+WideRec(e) == e.t \in Wide /\ e.k # "cast"
+\* [B] "0 is false, non-zero is true" - on the FULL value, whatever its width
+Truthy(e, v) == IF WideRec(e) THEN v.hi # 0 \/ v.lo # 0 ELSE v # 0
+Neg32(a) == IF a = MinI32 THEN MinI32 ELSE -a
+NegW(v) == [lo |-> Neg32(v.lo), hi |-> IF v.lo = 0 THEN Neg32(v.hi) ELSE -v.hi - 1]
+
 RECURSIVE Eval(_, _)
 Eval(e, env) ==
-    CASE e.k = "lit" -> V(e.v)
+    CASE e.k \in {"lit", "blit"} -> V(e.v)             \* blit: bare literal (default type i64), e.g. 4294967296
+      [] e.k = "flit" -> V(0)                           \* float literal: only ever stored in an unused local
       [] e.k \in {"par", "loc"} -> V(env[e.n])
-      [] e.k = "neg" -> LET a == Eval(e.e, env) IN IF a.o # "v" THEN a ELSE Neg(e.t, a.v)
+      [] e.k = "neg" -> LET a == Eval(e.e, env) IN
+                        IF a.o # "v" THEN a ELSE IF WideRec(e) THEN V(NegW(a.v)) ELSE Neg(e.t, a.v)
       [] e.k = "not" -> LET a == Eval(e.e, env) IN IF a.o # "v" THEN a ELSE V(IF a.v = 0 THEN 1 ELSE 0)   \* [B]
-      [] e.k = "cast" -> LET a == Eval(e.e, env) IN IF a.o # "v" THEN a ELSE CastV(e.t, e.e.t, a.v)
+      [] e.k = "cast" -> LET a == Eval(e.e, env) IN
+                         IF a.o # "v" THEN a
+                         ELSE IF WideRec(e.e) THEN CastV(e.t, e.e.t, a.v.lo)     \* [C2]: low bits decide
+                         ELSE CastV(e.t, e.e.t, a.v)
       [] e.k = "bin" ->
             LET a == Eval(e.l, env) IN
             IF a.o # "v" THEN a
             ELSE IF e.op = "and" THEN                                     \* [B] short circuit
-                IF a.v = 0 THEN V(0)
-                ELSE LET b == Eval(e.r, env) IN IF b.o # "v" THEN b ELSE V(IF b.v = 0 THEN 0 ELSE 1)
+                IF ~Truthy(e.l, a.v) THEN V(0)
+                ELSE LET b == Eval(e.r, env) IN IF b.o # "v" THEN b ELSE V(IF Truthy(e.r, b.v) THEN 1 ELSE 0)
             ELSE IF e.op = "or" THEN
-                IF a.v # 0 THEN V(1)
-                ELSE LET b == Eval(e.r, env) IN IF b.o # "v" THEN b ELSE V(IF b.v = 0 THEN 0 ELSE 1)
+                IF Truthy(e.l, a.v) THEN V(1)
+                ELSE LET b == Eval(e.r, env) IN IF b.o # "v" THEN b ELSE V(IF Truthy(e.r, b.v) THEN 1 ELSE 0)
             ELSE LET b == Eval(e.r, env) IN
                 IF b.o # "v" THEN b
                 ELSE IF e.op \in CmpOps THEN Cmp(e.op, a.v, b.v)
@@ -259,7 +280,7 @@ ExecIf(s, i, env) ==
     IF i > Len(s.arms) THEN (IF s.hasElse THEN Exec(s.els, env) ELSE [o |-> "fall", v |-> 0, env |-> env])
     ELSE LET c == Eval(s.arms[i].c, env) IN
          IF c.o # "v" THEN [o |-> c.o, v |-> c.v, env |-> env]
-         ELSE IF c.v # 0 THEN Exec(s.arms[i].b, env)                                            \* [B] truthiness
+         ELSE IF Truthy(s.arms[i].c, c.v) THEN Exec(s.arms[i].b, env)                           \* [B] truthiness
          ELSE ExecIf(s, i + 1, env)
 
 \* Run a program on an argument tuple (same order as prog.ps)
@@ -280,7 +301,7 @@ Run(prog, args) ==
  specification does not state how they associate.
  ***************************************************************************)
 OpLvl(op) == CASE op \in {"*", "/", "%"} -> 3 [] op \in {"+", "-"} -> 4 [] op \in CmpOps -> 5 [] OTHER -> 6
-Lvl(e) == CASE e.k \in {"lit", "par", "loc", "cast"} -> 0 [] e.k \in {"neg", "not"} -> 2 [] OTHER -> OpLvl(e.op)
+Lvl(e) == CASE e.k \in {"lit", "blit", "flit", "par", "loc", "cast"} -> 0 [] e.k \in {"neg", "not"} -> 2 [] OTHER -> OpLvl(e.op)
 
 RECURSIVE ShowX(_, _)
 Paren(s) == "(" \o s \o ")"
@@ -288,7 +309,9 @@ Paren(s) == "(" \o s \o ")"
 \* "accepted programs validate" clauses only (no expected value is attached to them):
 \* "nocast" drops every cast (mixed widths), "bare" prints literals without their type.
 ShowX(e, nc) ==
-    CASE e.k = "lit" -> IF nc = "bare" THEN ToString(e.v) ELSE e.t \o "(" \o ToString(e.v) \o ")"
+    CASE e.k = "lit" -> IF e.t \in Wide THEN e.t \o "(" \o e.txt \o ")"       \* 64-bit literal: text carried along
+                        ELSE IF nc = "bare" THEN ToString(e.v) ELSE e.t \o "(" \o ToString(e.v) \o ")"
+      [] e.k \in {"blit", "flit"} -> e.txt
       [] e.k \in {"par", "loc"} -> e.n
       [] e.k = "cast" -> IF nc = "nocast" THEN ShowX(e.e, nc) ELSE e.t \o "(" \o ShowX(e.e, nc) \o ")"
       [] e.k = "neg" -> "-" \o (IF Lvl(e.e) > 2 THEN Paren(ShowX(e.e, nc)) ELSE ShowX(e.e, nc))
